@@ -18,6 +18,16 @@ package aac
 //@   ensures adtsFrameLength(h) == payloadSize + 7
 //@   ensures h[5]&0x1f == 0x1f && h[6] == 0xfc
 
+// the ADTS header synthesised from a decoded AudioSpecificConfig for one raw AAC frame: well formed (syncword, MPEG-4,
+// layer 0, no CRC) and its 13-bit frame length is the payload plus the 7 header bytes, so consecutive frames chain
+//@ func (asc *AudioSpecificConfig) ToAdtsHeader(payloadSize int) (h ADTSHeader)
+//@   requires asc != nil && 0 <= payloadSize && payloadSize <= 8184
+//@   modifies
+//@   ensures h[0] == 0xff && h[1] == 0xf1 && h[2]&2 == 0 && h[3]&0x3c == 0
+//@   ensures adtsFrameLength(h) == payloadSize + 7
+//@   ensures h[5]&0x1f == 0x1f && h[6] == 0xfc
+//@   ensures (h[2]&1)<<2 | h[3]>>6 == asc.ChannelConfig&7 && h[2]>>6 == (asc.ObjectType-1)&3
+
 //@ func (h ADTSHeader) FrameLength() (n int)
 //@   modifies
 //@   ensures n == adtsFrameLength(h)
